@@ -4,7 +4,8 @@
 set -e
 cd "$(dirname "$0")"
 export CARGO_NET_OFFLINE=true
-(cd lean && lake build VfsModel VfsModel.Adapters VfsModel.AsyncWalk VfsModel.Audit VfsModel.Basic VfsModel.Conc VfsModel.Embedded VfsModel.Fs VfsModel.Handle VfsModel.Leaf VfsModel.Path VfsModel.PathOps VfsModel.Proofs.AltrootLemmas VfsModel.Proofs.FMapLemmas VfsModel.Proofs.Faithful VfsModel.Proofs.Hoare VfsModel.Proofs.LeafFrame VfsModel.Proofs.MemInv VfsModel.Proofs.MemPath VfsModel.Proofs.MemRun VfsModel.Proofs.NoPanic VfsModel.Proofs.OverlayLemmas VfsModel.Proofs.PathLemmas VfsModel.Proofs.PhysLemmas VfsModel.Proofs.PhysPath VfsModel.Proofs.PreservesOps VfsModel.Proofs.TransferLemmas VfsModel.Props.C01 VfsModel.Props.C02 VfsModel.Props.C03 VfsModel.Props.C04 VfsModel.Props.C05 VfsModel.Props.C06 VfsModel.Props.C07 VfsModel.Props.C08 VfsModel.Props.C09 VfsModel.Props.C10 VfsModel.Props.C11 VfsModel.Props.C12 VfsModel.Props.C13 VfsModel.Props.C14 VfsModel.Props.C15 VfsModel.Props.C18 VfsModel.Props.C19 VfsModel.Props.C20 vfsmodel)
+# every module by name (no single root imports all: two lemma files define lemmas of the same name)
+(cd lean && lake build $(find VfsModel -name '*.lean' | sed 's/\.lean$//; s#/#.#g' | sort) VfsModel vfsmodel)
 [ -f harness/Cargo.lock ] || cp /repo/Cargo.lock harness/Cargo.lock
 (cd harness && cargo build --offline)
 mkdir -p evidence replays
